@@ -69,6 +69,36 @@ def exported (pats : List (List Pat)) (path : List Char) : Bool :=
 def exportPaths (pats : List (List Pat)) (paths : List (List Char)) : List (List Char) :=
   paths.filter (exported pats)
 
+/-! ### The tree written by `write_h5` under omit patterns
+
+`visititems` calls the traversal function on every group and dataset (parents first); an omitted node is skipped but its
+children are still visited; `create_dataset`/`create_group` on a path whose parents are missing creates them bare. -/
+
+/-- the proper ancestors of `A/B/c`: `A`, `A/B` -/
+def ancestors (p : List Char) : List (List Char) :=
+  (List.range p.length).filterMap fun i => if p[i]? = some '/' then some (p.take i) else none
+
+structure OutNode where
+  path : List Char
+  /-- written by the traversal itself (data and attributes copied) rather than as a bare parent -/
+  explicit : Bool
+deriving Repr, DecidableEq
+
+def ensureGroup (st : List OutNode) (g : List Char) : List OutNode :=
+  if st.any (fun n => n.path == g) then st else st ++ [⟨g, false⟩]
+
+def writeNode (st : List OutNode) (p : List Char) : List OutNode :=
+  ((ancestors p).foldl ensureGroup st) ++ [⟨p, true⟩]
+
+/-- the output file after the traversal of `nodes` (in visiting order) -/
+def writeOmit (pats : List (List Pat)) (nodes : List (List Char)) : List OutNode :=
+  nodes.foldl (fun st p => if exported pats p then writeNode st p else st) []
+
+/-- `E` written with its attributes, `I` present only as a bare parent, `A` absent -/
+def nodeStatus (out : List OutNode) (p : List Char) : String :=
+  if out.any (fun n => n.path == p && n.explicit) then "E"
+  else if out.any (fun n => n.path == p) then "I" else "A"
+
 /-! ### Cropping -/
 
 /-- `lk_file[name][a:b]` for a numerical channel. -/
@@ -472,6 +502,14 @@ def handle : List String → Option String
         | .ok (some s1) => cropExportRead flDouble s1 c d
       showExcept (fun (r : Option C01.Src) => match r with | none => "absent" | some x => C01.showSrc x) r
     | _ => none
+  | ["c05.omittree", pats, paths] => do
+    -- every node of the source file in visiting order -> its status in the output file
+    let pats ← Proto.listListOf? nat? pats
+    let paths ← Proto.listListOf? nat? paths
+    let ps := pats.map fun p => parsePat (p.map Char.ofNat)
+    let nodes := paths.map fun p => p.map Char.ofNat
+    let out := writeOmit ps nodes
+    some (showList id (nodes.map (nodeStatus out)))
   | _ => none
 
 end Verif.C05
